@@ -30,6 +30,14 @@
 //	nprobe <p>                nat hole pre-check for name p, sent by an unrelated, ungated session => client | noclient
 //	tprobe <n> <p>            a user connects to the remote port session n got for its tcp proxy p
 //	                          => noport | refused | accepted | req:<m>
+//	wpoke <n> <p>             frps gets something to WRITE to session n's control connection: a visitor with the right
+//	                          key (stcp / sudp) or a user (tcp) connects to n's registered proxy p, the proxy asks n's
+//	                          dispatcher for a work connection (Control.GetWorkConn -> Dispatcher.Send -> sendLoop ->
+//	                          WriteMsg).  Generated also while n's connection is CLOSED and its read loop sits inside a
+//	                          parked handler: the write fails.  => req:<k> (client k received the ReqWorkConn) |
+//	                          wfail:<n> (a Write on n's server-side connection returned an error) |
+//	                          wfail:<n>;done (… and n's worker passed `<-Done()` although a handler of n is in flight) |
+//	                          nolistener | noport | refused | nowrite
 //	randid                    fact check of util.RandID (one call)                       => ok | …
 //	randconc <g> <k>          g goroutines × k calls of the real util.RandID, interleaved with runtime.Gosched
 //	                          => ids:<id,…> (g·k ≤ 4096: all ids, Lean decides) | sum:n=<g·k>;bad=<malformed ids>;dup=<repeated ids>
@@ -114,6 +122,37 @@ type sessClient struct {
 	regName      int            // name index of the NewProxy the handler is working on
 	regTyp       string         // … and its type
 	ports        map[int]string // name index -> remote address of the registered tcp proxy
+	wfails       int            // Writes on the server side of the control connection that returned an error
+	rdErr        bool           // a Read on the server side of the control connection returned an error (the read loop ends)
+}
+
+// the server side of a scripted client's control connection: reports failed reads / writes of frps as events
+type sessSrvConn struct {
+	net.Conn
+	w *sessWorld
+	c *sessClient
+}
+
+func (s *sessSrvConn) Read(p []byte) (int, error) {
+	n, err := s.Conn.Read(p)
+	if err != nil {
+		s.w.mu.Lock()
+		s.c.rdErr = true
+		s.w.mu.Unlock()
+		s.w.signal()
+	}
+	return n, err
+}
+
+func (s *sessSrvConn) Write(p []byte) (int, error) {
+	n, err := s.Conn.Write(p)
+	if err != nil {
+		s.w.mu.Lock()
+		s.c.wfails++
+		s.w.mu.Unlock()
+		s.w.signal()
+	}
+	return n, err
 }
 
 type sessWorld struct {
@@ -1047,9 +1086,91 @@ func (w *sessWorld) tprobe(n, p int) string {
 	return "req:" + strconv.Itoa(who)
 }
 
-// the handler of session n has returned: a reply arrived, or (closed connection) the worker reached its first gate
+// how long a write-side event is given to reach the worker's first gate (it must NOT: this is a bounded
+// negative check, paid once per wpoke on a closed connection)
+const sessPokeGrace = 40 * time.Millisecond
+
+// frps gets something to write to session n's control connection: somebody connects to n's proxy p, the proxy asks
+// n's dispatcher for a work connection
+func (w *sessWorld) wpoke(n, p int) string {
+	w.mu.Lock()
+	c := w.clients[n]
+	name := w.rawName(p)
+	addr := ""
+	before := 0
+	if c != nil {
+		addr = c.ports[p]
+		before = c.wfails
+	}
+	w.mu.Unlock()
+	if c == nil || !c.started || c.dispSeen {
+		return "disabled"
+	}
+	w.dropReqs()
+	if addr != "" {
+		if strings.HasPrefix(addr, ":") {
+			addr = "127.0.0.1" + addr
+		}
+		conn, err := net.DialTimeout("tcp", addr, sessTimeout)
+		if err != nil {
+			return "refused"
+		}
+		defer conn.Close()
+	} else {
+		c1, c2 := net.Pipe()
+		defer c2.Close()
+		ts := time.Now().Unix()
+		ch := make(chan error, 1)
+		go func() {
+			ch <- w.svr.RegisterVisitorConn(c1, &msg.NewVisitorConn{ProxyName: name, Timestamp: ts, SignKey: util.GetAuthKey(sessSk, ts)})
+		}()
+		select {
+		case err := <-ch:
+			if err != nil {
+				c1.Close()
+				if strings.Contains(err.Error(), "doesn't exist") {
+					return "nolistener"
+				}
+				return "err:" + hx(err.Error())
+			}
+		case <-time.After(sessTimeout):
+			c1.Close()
+			return w.timeout()
+		}
+	}
+	who := -1
+	switch w.waitAny(sessTimeout, w.reqAt(&who), func() bool { return c.wfails > before }) {
+	case 0:
+		return "req:" + strconv.Itoa(who)
+	case 1:
+		r := "wfail:" + strconv.Itoa(n)
+		if c.busy && w.waitAny(sessPokeGrace, w.at(n, "worker", "worker.dispDone")) >= 0 {
+			r += ";done"
+		}
+		return r
+	}
+	return "nowrite"
+}
+
+// the handler of session n has returned: a reply arrived, or (closed connection) the read loop went on to its next
+// ReadMsg, which failed (the worker's first gate is NOT that event: it says the dispatcher is done, which must come
+// after the read loop has returned but is a separate fact)
 func (w *sessWorld) handlerEnd(c *sessClient, reply func(msg.Message) bool, out *msg.Message) []func() bool {
-	return []func() bool{w.got(c, reply, out), w.at(c.n, "worker", "worker.dispDone")}
+	return []func() bool{w.got(c, reply, out), func() bool { return c.rdErr }}
+}
+
+// the bound of a wait for the end of a handler that is about to be released.  If the read loop has ENDED while the
+// handler was parked (impossible for a dispatcher that calls its handlers itself) a failed read says nothing about
+// the handler any more: only its next gate / its reply can be waited for, briefly, and an expiry is no wedge
+func (w *sessWorld) handlerWait(c *sessClient, ends []func() bool) (time.Duration, bool) {
+	w.mu.Lock()
+	pre := c.rdErr
+	w.mu.Unlock()
+	if pre {
+		ends[1] = func() bool { return false }
+		return 6 * sessPokeGrace, true
+	}
+	return sessTimeout, false
 }
 
 func sessOp(w *sessWorld, tok []string) string {
@@ -1090,6 +1211,11 @@ func sessOp(w *sessWorld, tok []string) string {
 			return "badop"
 		}
 		return w.tprobe(atoi(tok[1]), atoi(tok[2]))
+	case "wpoke":
+		if len(tok) < 3 {
+			return "badop"
+		}
+		return w.wpoke(atoi(tok[1]), atoi(tok[2]))
 	}
 	n := atoi(tok[1])
 	w.mu.Lock()
@@ -1120,7 +1246,7 @@ func sessOp(w *sessWorld, tok []string) string {
 		w.mu.Lock()
 		w.clients[n] = c
 		w.mu.Unlock()
-		if err := w.svr.VerifAuthInternalListener().PutConn(c1); err != nil {
+		if err := w.svr.VerifAuthInternalListener().PutConn(&sessSrvConn{Conn: c1, w: w, c: c}); err != nil {
 			return "puterr"
 		}
 		lm := &msg.Login{Version: version.Full(), Hostname: sessHost(n), Os: "linux", Arch: "amd64",
@@ -1237,8 +1363,17 @@ func sessOp(w *sessWorld, tok []string) string {
 		c.conn.Close()
 		return "-"
 	case "dispdone":
-		if !c.started || c.dispSeen || c.busy || !(c.clientClosed || c.replaced) {
+		if !c.started || c.dispSeen || !(c.clientClosed || c.replaced) {
 			return "disabled"
+		}
+		if c.busy {
+			// the read loop sits inside a parked handler: Done must not have fired.  Nothing to wait for: the
+			// worker either stands at its first gate now (a write-side event let it pass) or it does not
+			if !w.isAt(n, "worker", "worker.dispDone") {
+				return "disabled"
+			}
+			c.dispSeen = true
+			return "ok"
 		}
 		if w.waitAny(sessTimeout, w.at(n, "worker", "worker.dispDone")) < 0 {
 			return w.timeout()
@@ -1330,10 +1465,15 @@ func sessOp(w *sessWorld, tok []string) string {
 		if !w.isAt(n, "handler", from) {
 			return "disabled"
 		}
-		w.release(n, "handler")
 		var m msg.Message
 		ends := w.handlerEnd(c, func(m msg.Message) bool { _, ok := m.(*msg.NewProxyResp); return ok }, &m)
-		switch w.waitAny(sessTimeout, w.at(n, "handler", to), ends[0], ends[1]) {
+		bound, loose := w.handlerWait(c, ends)
+		w.release(n, "handler")
+		i := w.waitAny(bound, w.at(n, "handler", to), ends[0], ends[1])
+		if i < 0 && loose {
+			i = 2
+		}
+		switch i {
 		case 0:
 			return yes
 		case 1:
@@ -1385,10 +1525,11 @@ func sessOp(w *sessWorld, tok []string) string {
 		if !w.isAt(n, "handler", "close.deleted") {
 			return "disabled"
 		}
-		w.release(n, "handler")
 		var m msg.Message
 		ends := w.handlerEnd(c, func(m msg.Message) bool { _, ok := m.(*msg.Pong); return ok }, &m)
-		if w.waitAny(sessTimeout, ends[0], ends[1]) < 0 {
+		bound, loose := w.handlerWait(c, ends)
+		w.release(n, "handler")
+		if w.waitAny(bound, ends[0], ends[1]) < 0 && !loose {
 			return w.timeout()
 		}
 		c.busy = false
@@ -1412,6 +1553,7 @@ type sessSim struct {
 	deleted  bool
 	closed   bool
 	earlyRel bool
+	pokes    int // wpoke ops emitted while the connection was closed and a handler was in flight
 }
 
 type sessGenState struct {
@@ -1723,7 +1865,54 @@ func (g *sessGenState) candidates() []sessCand {
 				}
 			}
 			if !x.closed {
-				add(2, fmt.Sprintf("connclose %d", k), func() { x.closed = true })
+				wc := 2
+				if x.hp != "" && len(x.own) > 0 {
+					// the connection breaks while the read loop sits inside a handler and the session has a proxy
+					// through which frps can be made to write to it
+					wc = 5
+				}
+				add(wc, fmt.Sprintf("connclose %d", k), func() { x.closed = true })
+			}
+			// frps gets something to write to this session: somebody connects to one of its proxies.  With the
+			// connection closed and a handler in flight the write FAILS while the read loop cannot notice anything:
+			// the session must stay exactly as it is (every step of its teardown is attempted and must be disabled)
+			// until the handler has returned
+			if !g.fuzzy && (!x.closed || x.hp != "") {
+				ps := []int{}
+				for p := range x.own {
+					if t := x.ownTyp[p]; (t == "tcp" || t == "stcp" || t == "sudp") && !(x.hp == "closing" && x.hpArg == p) {
+						ps = append(ps, p)
+					}
+				}
+				sort.Ints(ps)
+				if len(ps) > 0 {
+					p := ps[g.rng.Intn(len(ps))]
+					wt := 1
+					if x.closed {
+						wt = 8 - 2*x.pokes
+						if wt < 1 {
+							wt = 1
+						}
+					}
+					nOwn := len(x.own)
+					add(wt, fmt.Sprintf("wpoke %d %d", k, p), func() {
+						if !x.closed {
+							return
+						}
+						x.pokes++
+						g.after = []string{fmt.Sprintf("dispdone %d", k)}
+						if g.rng.Intn(3) > 0 {
+							g.after = append(g.after, fmt.Sprintf("drain %d", k))
+							for i := 0; i < nOwn; i++ {
+								g.after = append(g.after, fmt.Sprintf("closeproxy %d", k))
+							}
+							g.after = append(g.after, fmt.Sprintf("done %d", k))
+							if g.rng.Intn(2) == 0 {
+								g.after = append(g.after, fmt.Sprintf("del %d", k))
+							}
+						}
+					})
+				}
 			}
 		case "dispDone":
 			add(8, fmt.Sprintf("drain %d", k), func() {
@@ -1950,6 +2139,25 @@ func sessResScripts() [][]string {
 			"regexist 2 1 tcp", "regrun 2", "regadd 2", "regown 2", "regexist 2 2 stcp", "regrun 2", "regadd 2", "regown 2",
 			"regexist 2 3 xtcp", "regrun 2", "regadd 2", "regown 2", "regexist 2 4 sudp", "regrun 2", "regadd 2", "regown 2",
 			"del 1", "vprobe 4 2", "nprobe 3", "tprobe 2 1"},
+		// the connection breaks while the read loop sits inside a NewProxy handler and frps has something to write (a
+		// visitor of the session's stcp proxy, a user of its tcp proxy): the write fails, NOTHING moves - every step of
+		// the teardown is attempted at every stage of the handler and must be disabled; the handler finishes, only then
+		// the dispatcher is done; the teardown closes all three proxies and the re-login registers the names again
+		{"login 1 1001 1", "add 1", "start 1", "regexist 1 1 stcp", "regrun 1", "regadd 1", "regown 1",
+			"regexist 1 2 tcp", "regrun 1", "regadd 1", "regown 1", "wpoke 1 1", "wpoke 1 2", "regexist 1 3 sudp",
+			"wpoke 1 1", "connclose 1", "wpoke 1 1", "dispdone 1", "drain 1", "closeproxy 1", "done 1", "del 1",
+			"regrun 1", "wpoke 1 2", "dispdone 1", "drain 1", "closeproxy 1", "closeproxy 1", "done 1", "del 1",
+			"regadd 1", "wpoke 1 1", "dispdone 1", "drain 1", "done 1", "regown 1", "login 2 1001 0", "add 2", "early 2",
+			"dispdone 1", "start 2", "drain 1", "closeproxy 1", "closeproxy 1", "start 2", "closeproxy 1", "done 1",
+			"waitold 2", "start 2", "vprobe 1 0", "vprobe 3 0", "regexist 2 3 sudp", "regrun 2", "regadd 2", "regown 2",
+			"regexist 2 1 stcp", "regrun 2", "regadd 2", "regown 2", "regexist 2 2 tcp", "regrun 2", "regadd 2", "regown 2",
+			"del 1", "wpoke 2 3", "wpoke 2 2"},
+		// the same under a CloseProxy handler (parked between pxyManager.Del and the own-table delete, holding ctl.mu)
+		{"login 1 1 0", "add 1", "start 1", "regexist 1 1 stcp", "regrun 1", "regadd 1", "regown 1",
+			"regexist 1 2 sudp", "regrun 1", "regadd 1", "regown 1", "closereq 1 2", "connclose 1", "wpoke 1 1",
+			"dispdone 1", "drain 1", "closeproxy 1", "done 1", "del 1", "closefin 1", "dispdone 1", "drain 1",
+			"closeproxy 1", "done 1", "login 2 1 0", "add 2", "waitold 2", "start 2", "del 1", "regexist 2 2 sudp",
+			"regrun 2", "regadd 2", "regown 2", "regexist 2 1 stcp", "regrun 2", "regadd 2", "regown 2", "vprobe 1 2"},
 	}
 }
 
